@@ -200,7 +200,7 @@ impl Pack for DirectoryPack {
         if self.check_info.read().unwrap().is_none() {
             let check_info = self.reader.parse_block_in::<CheckInfo>(
                 self.pack_header.check_info_pos,
-                self.pack_header.check_info_size(),
+                self.pack_header.check_info_size()?,
             )?;
             let mut s_check_info = self.check_info.write().unwrap();
             *s_check_info = Some(check_info);
